@@ -216,8 +216,20 @@ func oraclePKCS8(der []byte) Sx {
 	pf := k.Algorithm.Parameters.FullBytes
 	return SL{arcsSx(k.Algorithm.Algorithm), oracleDSAParams(pf), oraclePKCS1Priv(k.PrivateKey), oracleECParams(pf)}
 }
+// harnessSEC1 is the SEC1 ECPrivateKey as the harness reads it (RFC 5915; the two parameter choices as two
+// optional fields with the same tag, which is how encoding/asn1 can express the CHOICE). It is typed here, not
+// taken from internal/asn1struct, so that a refactoring of the repository's struct does not take the harness
+// down with it: the description of the key is compared, not the layout of the repository's types.
+type harnessSEC1 struct {
+	Version       int
+	PrivateKey    []byte
+	NamedCurveOID asn1.ObjectIdentifier   `asn1:"optional,explicit,tag:0"`
+	Params        asn1struct.ECParameters `asn1:"optional,explicit,tag:0"`
+	PublicKey     asn1.BitString          `asn1:"optional,explicit,tag:1"`
+}
+
 func oracleSEC1(der []byte) Sx {
-	var k asn1struct.ECPrivateKey
+	var k harnessSEC1
 	if _, err := asn1.Unmarshal(der, &k); err != nil {
 		return SL{}
 	}
